@@ -182,8 +182,10 @@ def coverage(events):
     return cov, verdicts, single
 
 
-# conditions that cannot be falsified in isolation / at all with zrnt's backend interfaces are listed with a reason
-NOT_REQUIRED_FALSE = {}
+# every condition must also be exercised as the ONLY failing one, except where that is impossible:
+NOT_SINGLE = {
+    ("block", "after_finalized"): "a block at or before the finalized slot cannot descend from the finalized checkpoint",
+}
 
 
 def check_vacuity(cov, verdicts, single):
@@ -195,8 +197,10 @@ def check_vacuity(cov, verdicts, single):
         for c, (f, tr) in cov[t].items():
             if tr == 0:
                 missing.append("%s.%s never true" % (t, c))
-            if f == 0 and (t, c) not in NOT_REQUIRED_FALSE:
+            if f == 0:
                 missing.append("%s.%s never false" % (t, c))
+            if single[t][c] == 0 and (t, c) not in NOT_SINGLE:
+                missing.append("%s.%s never the only failing condition" % (t, c))
         for v in ("ACCEPT", "IGNORE", "REJECT"):
             if verdicts[t][v] == 0:
                 missing.append("%s: verdict %s never returned" % (t, v))
@@ -324,7 +328,7 @@ def run_check(pid, tier, seed, replay=None):
 
 
 def scen_of(view):
-    for k, v in {"p0early": "p0", "altmid": "alt", "latebel": "late"}.items():
+    for k, v in {"p0early": "p0", "p0lag": "p0", "altmid": "alt", "latebel": "late"}.items():
         if view == k:
             return v
     return view
